@@ -77,7 +77,7 @@ def run(rep, tier, seed):
     for sc in scens[:1] + scens[-1:]:
         rep.sample({"index_chunks": sc[0].get("chunks"), "ops": sc[1:15]})
     # the command glue: the real binary end to end, judged by CliOutcome.tla
-    cli_common.run(rep, vlib.workdir("C09-cli"), seed, "cat,ssh", tier == "thorough")
+    cli_common.run(rep, vlib.workdir("C09-cli"), seed, "cat,ssh,stdout-blob", tier == "thorough")
     rep.rule = ("case = hand-built index of 0-9 chunks (1-6 bytes each over 4 byte values, runs of the null chunk, repeated IDs, zero chunks shorter "
                 "than max) x 40-60 random operations (Seek with every whence incl. negative and past-end, Read of 0..blob+3 bytes, mount-handle "
                 "read(off,size), new handle, change of the failing-ID set) plus scenarios with 3 concurrent requests on one mount handle; "
